@@ -51,14 +51,6 @@ def client_fn(sim, task_name, target, prog, history, ctx, get_task):
     return fn
 
 
-def run_clients(case, factory=default_factory, before=None, extra_tasks=None):
-    """Run case['progs'] concurrently.  Returns a dict with history, sim
-    statistics and the post-run observations made by `after`-style callers:
-    the World is closed on return, so callers pass `inspect(world, targets)`
-    via case-independent closure `before`/`inspect` (see run_and_inspect)."""
-    raise NotImplementedError
-
-
 def run_and_inspect(case, inspect, factory=default_factory, prepare=None, extra=None):
     cfg = case['cfg']
     seed = case['seed']
